@@ -180,6 +180,10 @@ fn run_rr(full: bool) -> SimResult {
     crate::full::reset(false);
     draw_policy();
     net::with_net(|n| n.faults = false);
+    if !full && profile() != Profile::None && choose(3) == 0 {
+        // some substreams die while their protocol is being negotiated; the connection stays up
+        net::with_net(|n| n.stream_reset_permille = [50, 200, 500][choose(3)]);
+    }
     let mux = if choose(2) == 0 { crate::full::Mux::Yamux } else { crate::full::Mux::Mplex };
     let lazy = choose(3) == 0;
     let n = 2 + choose(2);
